@@ -312,7 +312,30 @@ class ASTTypeBuilder:
             nodes=[type_def],
         )
 
+    def _assert_input_type_node(self, node: _ast.InputValueDefinition) -> None:
+        # Output types in input positions are rejected before they get built:
+        # building them eagerly here recurses forever when they (indirectly)
+        # refer to the type being built.
+        type_node = node.type
+        while isinstance(type_node, (_ast.ListType, _ast.NonNullType)):
+            type_node = type_node.type
+        type_def = self._type_defs.get(type_node.name.value)  # type: ignore
+        if isinstance(
+            type_def,
+            (
+                _ast.ObjectTypeDefinition,
+                _ast.InterfaceTypeDefinition,
+                _ast.UnionTypeDefinition,
+            ),
+        ):
+            raise SDLError(
+                'Expected input type for "%s" but got "%s"'
+                % (node.name.value, type_node.name.value),  # type: ignore
+                [node],
+            )
+
     def _build_argument(self, node: _ast.InputValueDefinition) -> Argument:
+        self._assert_input_type_node(node)
         type_ = self.build_type(node.type)
         kwargs = dict(description=_desc(node), node=node)
         if node.default_value is not None:
@@ -322,6 +345,7 @@ class ASTTypeBuilder:
         return Argument(node.name.value, type_, **kwargs)  # type: ignore
 
     def _build_input_field(self, node: _ast.InputValueDefinition) -> InputField:
+        self._assert_input_type_node(node)
         type_ = self.build_type(node.type)
         kwargs = dict(description=_desc(node), node=node)
         if node.default_value is not None:
